@@ -18,7 +18,9 @@ def rhsPool : List E := [.id, .int, .pre .minus .id, .paren (.bin .plus .id .int
 def flat : List Stmt :=
   [.decl .int none none, .decl .uint (some .int) (some (.bin .plus .id .int)), .decl .bool none (some .id),
    .decl .float (some (.bin .star .int .int)) none,
-   .brk, .cont, .endS, .measure, .assignMeasure, .reset, .barrier 0, .barrier 2,
+   .brk, .cont, .endS, .measure, .assignMeasure, .reset, .barrier 0, .barrier 2, .ret none, .ret (some (.bin .plus .id .int)),
+   .gateDef none 0 .nil, .gateDef (some 1) 1 (.cons (.gate [] 0) .nil), .defS [] none .nil,
+   .defS [.cls .int, .qubit] (some .float) (.cons (.ret (some .id)) .nil), .defS [.qubit] (some .bit) (.cons .measure .nil),
    .gate [] 0, .gate [] 2, .gate [.id] 0, .gate [.bin .slash .id .int, .pre .minus .int] 1] ++
   exprs.map .exprS ++ rhsPool.map .assign
 
